@@ -6,7 +6,7 @@
    The same predicates are TLC invariants of the model-checking configurations (applied to the
    model's predicted result) and the acceptance condition of trace validation (applied to results
    observed from the real library). *)
-EXTENDS Dom, Api, Wrap
+EXTENDS Dom, Api, Wrap, Tree
 
 Dom1(c, run) == c.doms[run.d]
 MetaGet(c, f, dflt) == IF f \in DOMAIN c.meta THEN c.meta[f] ELSE dflt
@@ -134,4 +134,90 @@ C12Parts(c, run) ==
                      /\ al.lab[i] = "cont" => \A j \in 1..Len(it) : PTag(it[j]) = 1 ]
 P_C12_run(c, run) == IsOk(run) => LET p == C12Parts(c, run) IN p.core /\ p.tagsWeak /\ p.tagsStrict
 P_C12(c) == \A i \in 1..Len(c.runs) : P_C12_run(c, c.runs[i])
+
+(* ---- C11: width errors; overflow always succeeds and is otherwise a no-op ------------------- *)
+\* runs (tagged): "zero" = width 0, "base" = (d, w, o), "ovf" = (d, w, o + allow_width_overflow)
+RunTagged(c, t) == LET idx == {i \in 1..Len(c.runs) : "tag" \in DOMAIN c.runs[i] /\ c.runs[i].tag = t} IN
+                   IF idx = {} THEN [none |-> TRUE] ELSE c.runs[CHOOSE i \in idx : TRUE]
+HasRun(r) == "none" \notin DOMAIN r
+\* P(d): the largest total prefix width of a chain of nested blocks (from the DOM and the decorator strings)
+RECURSIVE PrefixDepth(_, _)
+PrefixDepthSeq(ns, ds) == FoldLeft(LAMBDA a, n : Max2(a, PrefixDepth(n, ds)), 0, ns)
+OlItems(n) == Cardinality({i \in 1..Len(n.c) : IsHtml(n.c[i], "li")})
+PrefixDepth(n, ds) ==
+  IF n.k # "e" \/ Ignored(n) THEN 0
+  ELSE LET inner == PrefixDepthSeq(n.c, ds)
+           own == CASE ~n.h -> 0
+                    [] n.n = "blockquote" -> SumW(ds.quote)
+                    [] n.n = "ul" -> SumW(ds.ul)
+                    [] n.n = "dd" -> 2
+                    [] n.n = "ol" -> LET big == HasAttr(n, "start") /\ Len(n.a.start.c) > 9
+                                         st == IF HasAttr(n, "start") /\ ~big THEN ParseInt(n.a.start.c, TRUE, 1) ELSE 1
+                                         k == OlItems(n) IN
+                                     \* numbers beyond TLC's integers: over-approximate the marker width
+                                     \* (all characters of the attribute, plus one for a carry)
+                                     (IF big THEN Len(n.a.start.c) + 1
+                                      ELSE Max2(Len(NumCells(st)), Len(NumCells(st + Max2(k, 1) - 1)))) + SumW(ds.olsuf)
+                    [] n.n \in {"h1", "h2", "h3", "h4", "h5", "h6"} ->
+                         SumW(ds.hdr[CHOOSE l \in 1..6 : n.n = <<"h1", "h2", "h3", "h4", "h5", "h6">>[l]])
+                    [] OTHER -> 0
+       IN own + inner
+P_C11(c) ==
+  LET z == RunTagged(c, "zero")  b == RunTagged(c, "base")  o == RunTagged(c, "ovf") IN
+  /\ HasRun(z) => z.res.k = "narrow"
+  /\ (HasRun(o) /\ o.w >= 1) => o.res.k = "ok"
+  /\ (HasRun(b) /\ HasRun(o) /\ b.res.k = "ok") => (o.res.k = "ok" /\ o.res.lines = b.res.lines)
+  /\ (HasRun(o) /\ o.res.k = "ok" /\ o.w >= 1 /\ ~HasTable(Dom1(c, o)) /\ CfgOf(o.cfg).wraplinks) =>
+        LET cf == CfgOf(o.cfg)
+            bound == Max2(o.w, PrefixDepthSeq(Dom1(c, o), o.cfg.ds) + Max2(cf.minwrap, 5)) IN
+        \A i \in 1..Len(o.res.lines) : o.res.sw[i] <= bound
+
+(* ---- C13: output does not depend on the source formatting of collapsible whitespace -------- *)
+\* runs 1 and 2: the document and its rewrite r(d), same width and configuration
+SameResult(a, b) == a.res.k = b.res.k /\ a.res.lines = b.res.lines
+P_C13(c) == \A i \in 2..Len(c.runs) : SameResult(c.runs[1], c.runs[i])
+
+(* ---- C15: layout options are orthogonal and do only what they say --------------------------- *)
+\* runs: 1 = base configuration, 2 = base + option meta.opt (argument meta.arg); meta.applies says
+\* whether the document has anything the option applies to (computed by TLA+ below, not trusted)
+LineCodes(res) == [i \in 1..Len(res.lines) |-> Codes(NoFrags(res.lines[i]))]
+DelCode(codes, k) == SelectSeq(codes, LAMBDA x : x # k)
+RStripCodes(codes) == LET idx == {i \in 1..Len(codes) : codes[i] # 32} IN
+                      IF idx = {} THEN <<>> ELSE SubSeq(codes, 1, CHOOSE m \in idx : \A j \in idx : j <= m)
+AllOut(res) == Concat([i \in 1..Len(res.lines) |-> Plain(NoFrags(res.lines[i]))])
+HasBox(res) == \E i \in 1..Len(res.lines) : \E j \in 1..Len(res.lines[i]) : IsBoxCode(res.lines[i][j][1])
+\* a reference "[digits]" somewhere in a line
+HasRef(codes) == \E i \in 1..Len(codes) : codes[i] = 91 /\
+                   \E j \in (i + 2)..Len(codes) : codes[j] = 93 /\ \A k \in (i + 1)..(j - 1) : codes[k] \in 48..57
+HasLinkEl(dom) == LET ns == NodesSeq(dom) IN \E i \in 1..Len(ns) : IsHtml(ns[i], "a") /\ HasAttr(ns[i], "href")
+HasNestedBlock(dom) == HasElem(dom, {"ul", "ol", "blockquote", "dl", "dd", "table", "h1", "h2", "h3", "h4", "h5", "h6"})
+P_C15(c) ==
+  "opt" \notin DOMAIN c.meta \/
+  LET a == c.runs[1]  b == c.runs[2]  opt == c.meta.opt  dom == Dom1(c, a)
+      bothOk == a.res.k = "ok" /\ b.res.k = "ok" IN
+  CASE opt = "max_wrap" ->
+         /\ c.meta.arg >= a.w => SameResult(a, b)
+         /\ (b.res.k = "ok" /\ ~HasTable(dom) /\ ~CfgOf(b.cfg).footnotes /\ ~CfgOf(b.cfg).overflow) =>
+               \A i \in 1..Len(b.res.lines) : b.res.sw[i] <= PrefixDepthSeq(dom, b.cfg.ds) + c.meta.arg
+    [] opt = "pad" ->
+         /\ a.res.k = b.res.k
+         /\ bothOk => [i \in 1..Len(a.res.lines) |-> RStripCodes(LineCodes(a.res)[i])] = [i \in 1..Len(b.res.lines) |-> RStripCodes(LineCodes(b.res)[i])]
+    [] opt = "strike" ->     \* run 1 has unicode_strikeout(true), run 2 (false)
+         /\ a.res.k = b.res.k
+         /\ bothOk => [i \in 1..Len(a.res.lines) |-> DelCode(LineCodes(a.res)[i], STRIKE)] = LineCodes(b.res)
+         /\ ~HasElem(dom, {"s", "del"}) => SameResult(a, b)
+    [] opt \in {"noborders", "raw"} ->
+         /\ b.res.k = "ok" => ~HasBox(b.res)
+         /\ bothOk => BagOf(Letters(AllOut(a.res))) = BagOf(Letters(AllOut(b.res)))
+         /\ (opt = "raw" /\ b.res.k = "ok") => Letters(AllOut(b.res)) = Letters(FlowTextSeq(dom))
+         /\ ~HasTable(dom) => SameResult(a, b)
+    [] opt = "footnotes" ->  \* run 1 has link_footnotes(true), run 2 (false)
+         /\ bothOk => IF HasTable(dom) /\ ~CfgOf(a.cfg).raw
+                       THEN BagOf(Letters(AllOut(a.res))) = BagOf(Letters(AllOut(b.res)))
+                       ELSE Letters(AllOut(a.res)) = Letters(AllOut(b.res))
+         /\ b.res.k = "ok" => \A i \in 1..Len(b.res.lines) : ~HasRef(LineCodes(b.res)[i])
+         /\ ~HasLinkEl(dom) => SameResult(a, b)
+    [] opt = "nolinkwrap" -> (~HasLinkEl(dom) \/ ~CfgOf(a.cfg).footnotes) => SameResult(a, b)
+    [] opt = "min_wrap" -> ~HasNestedBlock(dom) => SameResult(a, b)
+    [] OTHER -> FALSE
 =============================================================================
